@@ -4,43 +4,116 @@ package ugo
 
 import (
 	"context"
+	"errors"
+	"runtime"
 
 	"github.com/ozanh/ugo/internal/verifrt"
 )
 
+// the named synchronisation points of the abort protocol (verifsync hooks)
 var verifC09Points = [...]string{
 	"run.entered", "run.before-reset", "run.after-reset",
 	"pool.before-register", "pool.registered", "invoke.checked", "pool.before-release",
 	"eval.before-check", "eval.started",
 }
 
-// VerifC09Abort places one Abort (or context cancellation) at a named point
-// of the protocol - the runner is parked at the point while another goroutine
-// performs the call to completion - and checks that the run still ends with
-// the aborted error within a bounded number of steps, that Abort can be
-// repeated, and that the VM afterwards runs a script normally.
-// Params: scenario (0 Run of an endless loop, 1 endless script function run
-// by a pooled child VM inside a Go callback, 2 Eval.Run under a context,
-// 3 endless loop inside a non-pooled child), point, occ (occurrence of the
-// point, counting from 1).
+const (
+	verifC09None  = len(verifC09Points) // "no second placement"
+	verifC09Steps = 400_000             // a run that has seen the flag ends within a few hundred steps
+)
+
+// the windows in which the unchanged tree loses an abort (open known findings)
+const (
+	c09RootReset   = "C09-abort-before-root-run-reset-lost"
+	c09ChildReset  = "C09-abort-before-child-run-reset-lost"
+	c09Unregistred = "C09-abort-while-callback-has-no-registered-child-lost"
+	c09EvalReset   = "C09-eval-cancel-before-run-reset-lost"
+)
+
+// verifC09Window names the known window a placement falls into, "" if none.
+// onRoot: the hook fired for the root VM; more: the callback starts another
+// child run after this point.
+func verifC09Window(scenario int, point string, onRoot, more bool) string {
+	switch point {
+	case "run.entered", "run.before-reset":
+		switch {
+		case scenario == 2:
+			return c09EvalReset
+		case onRoot:
+			return c09RootReset
+		default:
+			return c09ChildReset
+		}
+	case "eval.started":
+		return c09EvalReset
+	case "invoke.checked":
+		return c09ChildReset
+	case "pool.before-register":
+		return c09Unregistred
+	case "pool.before-release":
+		if more {
+			return c09Unregistred
+		}
+	}
+	return ""
+}
+
+// VerifC09Abort places one or two Aborts (or a context cancellation) at named
+// points of the protocol - the runner is parked at the point while another
+// goroutine performs the call to completion - and checks that the run still
+// ends with the aborted error within a bounded number of steps, that Abort
+// can be repeated, and that the VM afterwards runs a script normally.
+//
+// Params: scenario
+//
+//	0 Run of an endless loop
+//	1 endless script function run by a pooled child VM inside a Go callback
+//	2 Eval.Run of an endless loop under a context (cancellation instead of Abort)
+//	3 as 1 with a non-pooled child
+//	4 a callback that runs two pooled children in turn: the first returns, the second is endless
+//	5 a callback whose pooled child returns, followed by an endless loop on the root
+//
+// point (first placement), two (0: one placement; 1: a second placement
+// follows). The occurrence of the first placement and the whole second
+// placement are engine choices, so one job covers occ1 in 1..3 x
+// (point2 x occ2 in 1..3).
 func VerifC09Abort() {
 	scenario := verifrt.Param("scenario")
-	point := verifC09Points[verifrt.Param("point")]
-	occ := verifrt.Param("occ")
+	p1 := verifrt.Param("point")
+	occ1 := 1 + verifrt.Choice("occ1", 3)
+	p2 := verifC09None
+	occ2 := 0
+	if verifrt.Param("two") != 0 {
+		p2 = verifrt.Choice("point2", len(verifC09Points))
+		occ2 = 1 + verifrt.Choice("occ2", 3)
+	}
 
 	var root *VM
 	var cancel context.CancelFunc
-	count := 0
-	fired := false
+	more := false // set by scenario 4 while its second child has not started
+	type placement struct {
+		point     string
+		occ, seen int
+		fired     bool
+		window    string
+	}
+	pl := []*placement{{point: verifC09Points[p1], occ: occ1}}
+	if p2 != verifC09None {
+		pl = append(pl, &placement{point: verifC09Points[p2], occ: occ2})
+	}
+	next := 0 // placements fire in order
 	VerifSyncHook = func(p string, v *VM) {
-		if p != point || fired {
+		if next >= len(pl) || pl[next].point != p {
 			return
 		}
-		count++
-		if count != occ {
+		cur := pl[next]
+		cur.seen++
+		if cur.seen != cur.occ {
 			return
 		}
-		fired = true
+		cur.fired = true
+		cur.window = verifC09Window(scenario, p, v == root, more)
+		next++
 		done := make(chan struct{})
 		go func() {
 			defer close(done)
@@ -52,66 +125,102 @@ func VerifC09Abort() {
 			}
 		}()
 		<-done
+		if cancel != nil {
+			// cancellation reaches the VM through Eval's own goroutine: the
+			// runner stays parked here until that Abort has been made
+			for n := 0; !root.Aborted() && n < 10000; n++ {
+				runtime.Gosched()
+			}
+		}
 	}
 	defer func() { VerifSyncHook = nil }()
 
-	pooled := scenario == 1
-	g := Map{"cb": &Function{Name: "cb", ValueEx: func(c Call) (Object, error) {
-		inv := NewInvoker(c.VM(), c.Get(0))
+	invoke := func(c Call, fn Object, pooled bool) (Object, error) {
+		inv := NewInvoker(c.VM(), fn)
 		if pooled {
 			inv.Acquire()
 			defer inv.Release()
 		}
 		return inv.Invoke()
-	}}}
+	}
+	g := Map{
+		"cb": &Function{Name: "cb", ValueEx: func(c Call) (Object, error) {
+			return invoke(c, c.Get(0), scenario != 3)
+		}},
+		"cb2": &Function{Name: "cb2", ValueEx: func(c Call) (Object, error) {
+			more = true
+			if _, err := invoke(c, c.Get(0), true); err != nil {
+				return nil, err
+			}
+			more = false
+			return invoke(c, c.Get(1), true)
+		}},
+	}
 
 	var err error
 	finished := true
-	lostKnown := false
+	src := ""
 	switch scenario {
 	case 0:
-		bc, cerr := Compile([]byte(`for {}`), CompilerOptions{})
-		verifrt.Assert(cerr == nil, "compiles")
-		root = NewVM(bc)
-		lostKnown = point == "run.entered" || point == "run.before-reset"
-		finished = verifrt.Bounded(3_000_000, func() { _, err = root.Run(nil) }, root.Abort)
+		src = `for {}`
 	case 1, 3:
-		bc, cerr := Compile([]byte(`global cb; f := func() { for {} }; return cb(f)`), CompilerOptions{})
-		verifrt.Assert(cerr == nil, "compiles")
-		root = NewVM(bc)
-		// the first Run entry is the root's, later ones are the child's
-		lostKnown = point == "pool.before-register" || point == "invoke.checked" ||
-			(point == "run.entered" || point == "run.before-reset")
-		finished = verifrt.Bounded(3_000_000, func() { _, err = root.Run(g) }, func() {
-			root.Abort()
-		})
-	case 2:
+		src = `global cb; f := func() { for {} }; return cb(f)`
+	case 4:
+		src = `global cb2; f := func() { return 1 }; h := func() { for {} }; return cb2(f, h)`
+	case 5:
+		src = `global cb; f := func() { return 1 }; cb(f); for {}`
+	}
+	if scenario == 2 {
 		ctx, cf := context.WithCancel(context.Background())
 		cancel = cf
 		e := NewEval(CompilerOptions{}, nil)
 		root = e.VM
-		lostKnown = point == "eval.started" || point == "run.entered" || point == "run.before-reset"
-		finished = verifrt.Bounded(3_000_000, func() { _, _, err = e.Run(ctx, []byte(`for {}`)) }, func() { e.VM.Abort() })
+		finished = verifrt.Bounded(verifC09Steps, func() { _, _, err = e.Run(ctx, []byte(`for {}`)) }, func() { e.VM.Abort() })
+	} else {
+		bc, cerr := Compile([]byte(src), CompilerOptions{})
+		verifrt.Assert(cerr == nil, "compiles")
+		root = NewVM(bc)
+		finished = verifrt.Bounded(verifC09Steps, func() { _, err = root.Run(g) }, func() { root.Abort() })
 	}
-	verifrt.Assume(fired) // the point lies on this scenario's path
-	verifrt.Known("C09-abort-lost-before-flag-reset", lostKnown)
-	verifrt.Assert(finished, "abort-not-lost")
-	if finished {
-		if scenario == 2 {
-			verifrt.Assert(err != nil, "cancelled-eval-returns-an-error")
-		} else {
-			verifrt.Assert(err == ErrVMAborted, "run-returns-aborted-error")
+	for _, p := range pl {
+		verifrt.Assume(p.fired) // every placement lies on this scenario's path
+	}
+	verifrt.Reached("placed")
+	// The loss of the abort is a known finding only when every placement fell
+	// into one of the known windows.
+	allKnown := true
+	for _, p := range pl {
+		allKnown = allKnown && p.window != ""
+	}
+	for _, w := range []string{c09RootReset, c09ChildReset, c09Unregistred, c09EvalReset} {
+		hit := false
+		for _, p := range pl {
+			hit = hit || p.window == w
 		}
+		verifrt.Known(w, allKnown && hit)
 	}
+	verifrt.Assert(finished, "abort-not-lost")
 	verifrt.ClearKnown()
-	// an aborted VM runs later scripts normally
-	if scenario != 2 {
-		VerifSyncHook = nil
-		bc2, _ := Compile([]byte(`return 6 * 7`), CompilerOptions{})
-		var v Object
-		var err2 error
-		ok := verifrt.Bounded(3_000_000, func() { v, err2 = root.SetBytecode(bc2).Run(nil) }, root.Abort)
-		verifrt.Assert(ok && err2 == nil && v != nil && v.Equal(Int(42)), "aborted-vm-runs-later-scripts")
+	if !finished {
+		// the run was stopped by the step budget, not by the protocol: its VM
+		// is in no defined state, nothing further is observed on this path
+		return
 	}
+	if scenario == 2 {
+		verifrt.Assert(err != nil, "cancelled-eval-returns-an-error")
+		verifrt.Assert(errors.Is(err, context.Canceled) || errors.Is(err, ErrVMAborted), "cancelled-eval-error-is-cancellation")
+	} else {
+		verifrt.Assert(errors.Is(err, ErrVMAborted), "run-returns-aborted-error")
+	}
+	// an aborted VM runs later scripts normally
+	VerifSyncHook = nil
+	if scenario == 2 {
+		return
+	}
+	bc2, _ := Compile([]byte(`return 6 * 7`), CompilerOptions{})
+	var v Object
+	var err2 error
+	ok := verifrt.Bounded(verifC09Steps, func() { v, err2 = root.SetBytecode(bc2).Run(nil) }, root.Abort)
+	verifrt.Assert(ok && err2 == nil && v != nil && v.Equal(Int(42)), "aborted-vm-runs-later-scripts")
 	verifrt.Reached("end")
 }
